@@ -1,8 +1,7 @@
-"""Oracle for steady-state network solutions: compares everything the library reports with the
-exact tableau solution (documented reference directions) and re-checks Kirchhoff/element-law
+"""Oracle for steady-state solutions: compares everything the library reports with the exact
+tableau solution (documented reference directions) and re-checks Kirchhoff/potential-difference
 certificates on the reported numbers themselves."""
 from __future__ import annotations
-import numpy as np
 from ..ref import tableau, floatmna
 from .. import netdesc
 from ..observe import call, raised
@@ -10,9 +9,8 @@ from ..observe import call, raised
 KAPPA_MAX = 1e8
 
 
-def reference(desc):
-    """-> None if not well-posed, else dict(rep, kappa, tol, scales)"""
-    ref_net = netdesc.to_ref(desc)
+def reference_from_ref(ref_net, features=None):
+    """-> None if not well-posed, else dict(rep, kappa, tol, scales, ...)"""
     sol = tableau.solve_network(ref_net)
     if not sol['unique']:
         return None
@@ -22,18 +20,34 @@ def reference(desc):
     imax_ref = max([abs(v) for v in rep['I'].values()] + [0.0])
     s_phi = max(phimax, sc['vmax'], sc['imax'] * sc['zmax'])
     s_i = max(imax_ref, sc['imax'], s_phi * sc['ymax'])
+    feats = features or {}
     return {'rep': rep, 'kappa': kappa, 'tol': floatmna.tolerance(kappa), 's_phi': s_phi, 's_i': s_i,
-            'trivial': phimax == 0 and imax_ref == 0, 'kinds': sol['kinds'], 'ref_net': ref_net}
+            'trivial': phimax == 0 and imax_ref == 0, 'kinds': sol['kinds'], 'ref_net': ref_net,
+            'features': {b['id']: feats.get(b['id'], b['kind']) for b in ref_net['branches']}}
 
 
-def compare(desc, refd, getters, ctx, prefix, scale=1.0, power_factor=1.0, want_real=False):
+def reference(desc):
+    return reference_from_ref(netdesc.to_ref(desc), {b['id']: feature_of(b) for b in desc['branches']})
+
+
+def feature_of(b):
+    c = b['ctor']
+    if c == 'voltage_source':
+        c = 'ideal_v' if netdesc.is_zero(b.get('Z', 0)) else 'lin_v'
+    elif c == 'current_source':
+        c = 'ideal_i' if netdesc.is_zero(b.get('Y', 0)) else 'lin_i'
+    return c
+
+
+def compare(refd, getters, ctx, prefix, scale=1.0, power_factor=1.0, want_real=False, tol_extra=0.0):
     """getters: dict phi/V/I/P -> callable(id) on the library's solution object.
-    scale: factor the library's numbers are expected to carry relative to the reference (e.g. 1/sqrt2).
+    scale: factor the library's numbers carry relative to the reference peak phasors (e.g. 1/sqrt 2).
+    want_real: the library reports real parts only (DC analysis).
     Returns number of mismatches recorded."""
-    rep, tol = refd['rep'], refd['tol']
+    rep, tol = refd['rep'], refd['tol'] + tol_extra
+    ref_net = refd['ref_net']
     s_phi, s_i = refd['s_phi'] * abs(scale), refd['s_i'] * abs(scale)
     bad = 0
-    ctor = {b['id']: b for b in desc['branches']}
 
     def chk(cls, ident, got, exp, s, feature):
         nonlocal bad
@@ -49,10 +63,11 @@ def compare(desc, refd, getters, ctx, prefix, scale=1.0, power_factor=1.0, want_
             bad += 1
             return
         if want_real:
-            exp = exp.real
+            exp = complex(exp.real)
         err = abs(g - exp)
         lim = tol * s
         ctx.maxstat(f'max_normalised_error_{cls}', err / s if s else 0.0)
+        ctx.count('quantities_compared')
         if not (err <= lim):
             bad += 1
             ctx.violation(f'{prefix}/mismatch/{cls}/{feature}',
@@ -60,56 +75,50 @@ def compare(desc, refd, getters, ctx, prefix, scale=1.0, power_factor=1.0, want_
                           {'class': cls, 'id': ident, 'got': g, 'expected': exp, 'tol': lim, 'kappa': refd['kappa']})
     for n, v in rep['phi'].items():
         got = call(getters['phi'], n)
-        chk('potential', n, got, v * scale, s_phi, 'reference-node' if n == desc['ref'] else 'node')
-        if n == desc['ref'] and not raised(got):
+        isref = n == ref_net['ref']
+        chk('potential', n, got, v * scale, s_phi, 'reference-node' if isref else 'node')
+        if isref and not raised(got):
             try:
                 if complex(got) != 0:
                     ctx.violation(f'{prefix}/reference-potential-nonzero', f'potential of the reference node is {got!r}', {})
                     bad += 1
             except Exception:
                 pass
-    for b in desc['branches']:
+    for b in ref_net['branches']:
         bid = b['id']
-        feat = feature_of(b, desc)
+        feat = refd['features'][bid]
         chk('voltage', bid, call(getters['V'], bid), rep['V'][bid] * scale, s_phi, feat)
         chk('current', bid, call(getters['I'], bid), rep['I'][bid] * scale, s_i, feat)
         if 'P' in getters:
-            pexp = rep['P'][bid] * abs(scale) ** 2 * power_factor
             if want_real:
                 pexp = complex((rep['V'][bid] * scale).real * (rep['I'][bid] * scale).real)
+            else:
+                pexp = rep['P'][bid] * abs(scale) ** 2 * power_factor
             chk('power', bid, call(getters['P'], bid), pexp, s_phi * s_i * power_factor, feat)
     return bad
 
 
-def feature_of(b, desc):
-    c = b['ctor']
-    if c == 'voltage_source':
-        c = 'ideal_v' if netdesc.is_zero(b.get('Z', 0)) else 'lin_v'
-    elif c == 'current_source':
-        c = 'ideal_i' if netdesc.is_zero(b.get('Y', 0)) else 'lin_i'
-    return c
-
-
-def certificate(desc, getters, refd, ctx, prefix, scale=1.0):
+def certificate(refd, getters, ctx, prefix, scale=1.0, want_real=False):
     """KCL at every node (including the reference node) and V = phi1 - phi2 on the REPORTED numbers."""
     tol = refd['tol']
+    ref_net = refd['ref_net']
     s_phi, s_i = refd['s_phi'] * abs(scale), refd['s_i'] * abs(scale)
     inj = {}
-    for b in desc['branches']:
+    for b in ref_net['branches']:
         i = call(getters['I'], b['id'])
         v = call(getters['V'], b['id'])
         p1, p2 = call(getters['phi'], b['n1']), call(getters['phi'], b['n2'])
         if any(raised(x) for x in (i, v, p1, p2)):
             return
-        phys = complex(i) * (-1 if feature_of(b, desc) in ('lin_v', 'lin_i') else 1)
+        phys = complex(i) * (-1 if b['kind'] in ('LV', 'LI') else 1)
         inj[b['n1']] = inj.get(b['n1'], 0) + phys
         inj[b['n2']] = inj.get(b['n2'], 0) - phys
         if abs(complex(v) - (complex(p1) - complex(p2))) > tol * s_phi:
             ctx.violation(f'{prefix}/certificate/voltage-not-potential-difference',
                           f'V({b["id"]!r}) = {v!r} but phi1 - phi2 = {complex(p1) - complex(p2)!r}', {})
     for n, r in inj.items():
-        deg = sum(1 for b in desc['branches'] if n in (b['n1'], b['n2']))
+        deg = sum(1 for b in ref_net['branches'] if n in (b['n1'], b['n2']))
         if abs(r) > tol * s_i * max(deg, 1) * 4:
-            ctx.violation(f'{prefix}/certificate/kcl/{"reference-node" if n == desc["ref"] else "node"}',
+            ctx.violation(f'{prefix}/certificate/kcl/{"reference-node" if n == ref_net["ref"] else "node"}',
                           f'reported currents do not balance at node {n!r}: residual {r!r}', {'residual': r})
     ctx.count('certificates_checked')
